@@ -192,7 +192,7 @@ def _groups(spec, vec):
 @predicate("F-04a")
 def vectorized_fan_in_to_single_unit(case):
     """vectorize=True: within one (source variable -> target variable) group of merged nodes, all edges end in ONE
-    target unit of a merged node with >=2 units and come from >=2 different source units"""
+    target unit and come from >=2 different source units of a merged source node"""
     if not case.get("cfg", {}).get("vectorize"):
         return False
     spec = case["spec"]
@@ -205,28 +205,36 @@ def vectorized_fan_in_to_single_unit(case):
     for k, lst in by.items():
         tgt_units = {t for _, t in lst}
         src_units = {s for s, _ in lst}
-        if len(tgt_units) == 1 and len(src_units) >= 2 and len(groups[k[3]]) >= 2:
+        if len(tgt_units) == 1 and len(src_units) >= 2:
             return True
     return False
 
 
 @predicate("F-04b")
-def vectorized_equation_without_variables(case):
-    """vectorize=True with >=2 merged nodes: an equation whose right-hand side is a constant expression (x' = 1,
-    k = 0.5, z = x - x)"""
+def vectorized_equation_without_vector_operands(case):
+    """vectorize=True: an equation whose right-hand side has no vector-valued operand - a constant expression
+    (x' = 1, k = 0.5, z = x - x) on a merged node with >=2 units, or an algebraic variable that depends only on
+    parameters (r = f; parameters with one distinct value are collapsed to scalars) and is used as an edge source"""
     if not case.get("cfg", {}).get("vectorize"):
         return False
+    from . import expr as E
     spec = case["spec"]
-    for key, paths in _groups(spec, True).items():
-        if len(paths) < 2:
-            continue
-        nt = dict(spec["nodes"])[paths[0]] if False else None
-        for p, ntn in spec["nodes"]:
-            if p == paths[0]:
-                for o in spec["ntypes"][ntn]["ops"]:
-                    for e in spec["ops"][o]["eqs"]:
-                        if _is_constant_expr(e[2]):
-                            return True
+    groups = _groups(spec, True)
+    size = {}
+    for key, paths in groups.items():
+        for p in paths:
+            size[p] = len(paths)
+    edge_src = {(_node(s), _op(s), _var(s)) for s, t, e in _abs_edges(spec)}
+    for p, ntn in spec["nodes"]:
+        for o in spec["ntypes"][ntn]["ops"]:
+            od = spec["ops"][o]
+            kinds = {v[0]: v[1] for v in od["vars"]}
+            for e in od["eqs"]:
+                if _is_constant_expr(e[2]) and size[p] >= 2:
+                    return True
+                only_params = all(kinds.get(v) == "const" for v in E.variables(e[2]))
+                if only_params and not e[1] and (p, o, e[0]) in edge_src:
+                    return True
     return False
 
 
@@ -267,3 +275,30 @@ def vectorized_multi_source_input_with_unconnected_units(case):
         if len(d["src"]) >= 2 and len(d["units"]) < len(groups[gk]):
             return True
     return False
+
+
+# ------------------------------------------------------------------------------------------------------
+# repairs: for the most frequent finding shapes the generator output is repaired instead of discarded
+# (the repaired case is what runs and what is hashed; it carries "_repaired": [finding ids])
+
+def repair_case(case, ctx):
+    import copy
+    active = set(ctx.active_findings)
+    if "F-01c" in active and "spec" in case and two_source_vars_of_one_ir_node_into_one_target(case):
+        case = copy.deepcopy(case)
+        spec = case["spec"]
+        vec = bool(case.get("cfg", {}).get("vectorize"))
+        seen = {}
+        keep = []
+        for e in spec.get("edges", []):
+            pre = (e.get("scope") + "/") if e.get("scope") else ""
+            s, t = pre + e["s"], pre + e["t"]
+            tk = (_merged_node_key(spec, _node(t), vec), _op(t), _var(t)) if vec else t
+            sn = _merged_node_key(spec, _node(s), vec)
+            sv = (_op(s), _var(s))
+            if seen.setdefault((tk, sn), sv) != sv:
+                continue
+            keep.append(e)
+        spec["edges"] = keep
+        case.setdefault("_repaired", []).append("F-01c")
+    return case
